@@ -2,13 +2,16 @@
    CEnc: an option map and the bytes dhcpv4.Options.ToBytes wrote for it;
    CDec: the option bytes of a datagram and what dhcpv4.FromBytes made of them. *)
 From Coq Require Import List NArith.
-From Verif Require Import Base Msg4 IpcalcRun Opt4Codec.
+From Verif Require Import Base Net Msg4 IpcalcRun Opt4Codec Msg4Codec.
 Import ListNotations.
 Open Scope N_scope.
 
 Inductive ccase :=
 | CEnc (o : list (N * bytes)) (wire : bytes)
-| CDec (wire : bytes) (res : option (list (N * bytes))).
+| CDec (wire : bytes) (res : option (list (N * bytes)))
+(* whole messages: what ToBytes wrote for a message; what FromBytes made of a datagram *)
+| CMEnc (m : msg4) (wire : bytes)
+| CMDec (wire : bytes) (res : option msg4).
 
 Definition check_ccase (c : ccase) : bool :=
   match c with
@@ -17,6 +20,13 @@ Definition check_ccase (c : ccase) : bool :=
       match decode wire, res with
       | None, None => true
       | Some a, Some b => opts_eqb a b
+      | _, _ => false
+      end
+  | CMEnc m wire => match enc_msg m with Ok b => bytes_eqb b wire | _ => false end
+  | CMDec wire res =>
+      match dec_msg wire, res with
+      | None, None => true
+      | Some a, Some b => msg4_eqb a b
       | _, _ => false
       end
   end.
